@@ -23,13 +23,13 @@ RULE = (
     "rsmi_to_its(core=True) as input preparation), every list item is one of them as an exact copy, a relabelled "
     "copy (fresh non-contiguous node ids, shuffled node/edge insertion order, optionally the default charge 0 left "
     "out) or a near-miss (one component of one bond-order pair, or one charge, changed; the same edit may be drawn "
-    "for several copies and may hit symmetric positions); list order, pre-grouping attribute (none / six invariant "
-    "strings or lists), batch sizes, initial representatives and arrival chunks are generated. Oracle: pairwise "
+    "for several copies and may hit symmetric positions); list order, pre-grouping attribute (none / eight invariant "
+    "strings, lists or dicts), batch sizes, initial representatives and arrival chunks are generated. Oracle: pairwise "
     "brute-force isomorphism on (element, charge, order pair). Non-trivial = the list contains an isomorphic pair "
     "with different node ids AND a non-isomorphic pair that differs by one edit; distinct by the generated case."
 )
 ASSUMPTIONS = [
-    "lists are non-empty; attribute_key is None or names an isomorphism-invariant str / list present on every entry "
+    "lists are non-empty; attribute_key is None or names an isomorphism-invariant str / list / dict present on every entry "
     "(GraphCluster sorts list attributes and cannot take None values)",
     "default node labels (element, charge) and edge attribute (order) of the two classes, nx backend",
     "existing representatives handed to lib_check / cluster / fit are pairwise non-isomorphic with distinct class ids",
@@ -37,7 +37,7 @@ ASSUMPTIONS = [
 
 NODE_OK = iso.eq_on(["element", "charge"], {"element": "*", "charge": 0})
 EDGE_OK = iso.eq_on(["order"], {"order": 1})
-ATTR_KINDS = [None, "size", "elems", "charges", "orders", "const", "list_elems", "list_deg"]
+ATTR_KINDS = [None, "size", "elems", "charges", "orders", "const", "list_elems", "list_deg", "dict_elems"]
 RULE_KEYS = ["RC", "rc", "gml"]
 ATTR_KEY = "sig"
 
@@ -125,6 +125,8 @@ def attr_of(g, kind):
         return list(els)
     if kind == "list_deg":
         return sorted(dg for _, dg in g.degree())
+    if kind == "dict_elems":  # element -> count, like the repo's own 'atom_count' descriptor
+        return {e: els.count(e) for e in els}
     raise ValueError(kind)
 
 
